@@ -19,5 +19,6 @@ build() {  # build <targets...>
 if [ "$tier" = thorough ]; then DL=${VERIF_DEADLINE:-1500}; else DL=${VERIF_DEADLINE:-170}; fi
 case "$id" in
   C01|C02|C07|C08|C09|C10) build build/search; exec ./build/search --prop "$id" --tier "$tier" --deadline "$DL" ;;
+  C03|C04) build build/segmentation; exec ./build/segmentation --prop "$id" --tier "$tier" --deadline "$DL" ;;
   *) echo "unknown property $id"; exit 2 ;;
 esac
